@@ -122,7 +122,8 @@ class Fn:
 
     def loc(self, bb=None, idx=None):
         """file:line of a block's terminator or statement."""
-        if bb is None:
+        if bb is None or not isinstance(bb, int) or bb < 0 or bb >= len(self.blocks):
+            # (an event recorded inside an inlined callee / closure carries that body's block number)
             return "%s:%d" % (self.file, self.line)
         b = self.blocks[bb]
         if idx is None or idx >= len(b["stmts"]):
